@@ -41,6 +41,13 @@ class FakeProcessTransport(object):
 
     def loseConnection(self):
         self.closed += 1
+        if self.exited and self.held_status is not None:
+            # the pipes are let go of: now Twisted reports that the process has ended
+            status, self.held_status = self.held_status, None
+            self.proto.processEnded(status)
+
+    held_status = None
+    proto = None
 
 
 @implementer(IReactorProcess)
@@ -53,6 +60,7 @@ class LaunchReactor(oa.PortReactor):
     def spawnProcess(self, proto, executable, args=(), env={}, path=None, **kw):
         self.pproto = proto
         self.ptransport = FakeProcessTransport()
+        self.ptransport.proto = proto
         proto.makeConnection(self.ptransport)
         self.spawn_args = list(args)
         return self.ptransport
@@ -164,6 +172,17 @@ class Run(object):
             elif a == "Timeout":
                 # the launch timeout counts from the launch, whatever happened in between
                 self.reactor.advance(self.TIMEOUT - self.reactor.seconds())
+            elif a == "ExitHeld":
+                # the process is reaped, one of its pipes stays open: processExited now, processEnded once the pipes close
+                self.reactor.ptransport.exited = True
+                status = failure.Failure(error.ProcessTerminated(exitCode=1, signal=None))
+                self.reactor.ptransport.held_status = status
+                self.pp.processExited(status)
+            elif a == "Exit" and self.reactor.ptransport.held_status is not None:
+                status, self.reactor.ptransport.held_status = self.reactor.ptransport.held_status, None
+                self.pp.processEnded(status)          # the pipes close at last
+            elif a == "Exit" and self.reactor.ptransport.exited:
+                pass                                  # (already reported as ended when the pipes were let go of)
             elif a == "Exit":
                 self.reactor.ptransport.exited = True
                 status = failure.Failure(error.ProcessTerminated(exitCode=1 if len(self.fired) % 2 == 0 else None,
